@@ -333,6 +333,19 @@ theorem cleanup_getD (len seq : Nat) (ctl : List Nat) (o : Nat) (ho : o < len) :
     · left; rfl
     · right; omega
 
+theorem cleanup_getD_keep (len seq : Nat) (ctl : List Nat) (o c : Nat) (h : ctl.getD o 0xff = c) (hc : c < seq) :
+    (cleanup len seq ctl).getD o 0xff = c := by
+  simp only [cleanup, List.getD_eq_getElem?_getD, List.getElem?_mapIdx] at h ⊢
+  cases hq : ctl[o]? with
+  | none => rw [hq] at h; simpa using h
+  | some v =>
+    rw [hq] at h
+    simp only [Option.getD_some] at h
+    subst h
+    simp only [Option.map_some, Option.getD_some]
+    have : ¬ (o < len ∧ v ≥ seq) := by omega
+    simp [this]
+
 theorem ctlInit_length : ctlInit.length = xmpMaxModLength := by simp [ctlInit]
 
 /-- the first scan's state satisfies the loop invariant -/
@@ -366,7 +379,9 @@ theorem scanCore_spec (scan : Nat → ScanRes) (len : Nat) (hlen : len ≤ xmpMa
     1 ≤ st.seq ∧ st.seq ≤ maxSequences ∧ st.eps.length = st.seq ∧ st.times.length = st.seq
     ∧ (0 < len → ∀ e ∈ st.eps, e < len) ∧ (∀ t ∈ st.times, 0 ≤ t) ∧ st.eps.Nodup
     ∧ st.ctl.length = xmpMaxModLength
-    ∧ ∀ o, o < len → st.ctl.getD o 0xff = 0xff ∨ st.ctl.getD o 0xff < st.seq := by
+    ∧ (∀ o, o < len → st.ctl.getD o 0xff = 0xff ∨ st.ctl.getD o 0xff < st.seq)
+    ∧ st.eps.head? = some 0
+    ∧ (∀ i (h : i < st.eps.length), st.eps[i] < len → st.ctl.getD st.eps[i] 0xff = i) := by
   unfold scanSequencesCore at h
   simp only at h
   split at h
@@ -377,9 +392,13 @@ theorem scanCore_spec (scan : Nat → ScanRes) (len : Nat) (hlen : len ≤ xmpMa
     subst h
     simp only
     refine ⟨inv.seqPos, inv.seqMax, inv.epsLen, inv.timesLen, fun hl e he => inv.epsIn e he hl, inv.timesNN,
-            inv.nodup, ?_, ?_⟩
+            inv.nodup, ?_, ?_, inv.head, ?_⟩
     · rw [cleanup_length]; exact inv.ctlLen
     · intro o ho; exact cleanup_getD _ _ _ o ho
+    · intro i hi hl
+      have hv := inv.own i hi hl
+      have hil : i < (seqLoop scan len (len + 1) _).seq := by rw [← inv.epsLen]; exact hi
+      exact cleanup_getD_keep _ _ _ _ _ hv hil
 
 /-! ### Fuel: `len + 1` iterations suffice -/
 
